@@ -34,7 +34,7 @@ fn toks_json(s: &str) -> Option<Vec<String>> {
 }
 
 /// the codec list (JSON) of the chain: level `k` is `a2as[k] ; sharding(ishs[k], …, inner = level k+1) ; b2bs[k]`
-fn codecs_json(m: &BTreeMap<String, String>) -> Option<String> {
+pub(crate) fn codecs_json(m: &BTreeMap<String, String>) -> Option<String> {
     let ishs = pnll(&m["ishs"]);
     let locs: Vec<&str> = m["locs"].split(';').collect();
     let iends: Vec<&str> = m["iends"].split(';').collect();
